@@ -144,6 +144,62 @@ def ob_eca_relations(name, T, pairs):
                      "C16|event_coincidence_analysis", wit)
 
 
+def ob_eca_definition(name, T, pairs):
+    """static event_coincidence_analysis equals the counting definition [Odenweller2020] for symbolic time stamps, taumax >= 0 and
+    lag >= 0 -- including instantaneous coincidence (taumax = lag = 0), where no boundary events are excluded"""
+    from pyunicorn.eventseries import EventSeries
+    funcs = ["src/pyunicorn/eventseries/event_series.py EventSeries.event_coincidence_analysis"]
+    t, hyps = sym_times(T)
+    tau = SV(z3.Real("taumax"))
+    lag = SV(z3.Real("lag"))
+    hyps += [tau.v >= 0, lag.v >= 0]
+    tv = [x.v for x in t]
+
+    def spec(px, py):
+        ex_ = [tv[k] for k in range(T) if px[k]]
+        ey_ = [tv[k] for k in range(T) if py[k]]
+        inst = z3.And(tau.v == 0, lag.v == 0)
+        win = tau.v + lag.v
+
+        def rates(ea, eb):
+            # events of a preceded by an event of b within [lag, lag + taumax]; events of b followed by one of a
+            hit_a = [z3.Or(*[z3.And(a - b - lag.v >= 0, a - b - lag.v <= tau.v) for b in eb]) for a in ea]
+            hit_b = [z3.Or(*[z3.And(a - b - lag.v >= 0, a - b - lag.v <= tau.v) for a in ea]) for b in eb]
+            in_a = [z3.Or(inst, a > ea[0] + win) for a in ea]            # not among the first events that cannot have a precursor
+            in_b = [z3.Or(inst, b < eb[-1] - win) for b in eb]           # not among the last events that cannot trigger
+            prec = z3.Sum([z3.If(z3.And(i_, h), 1, 0) for i_, h in zip(in_a, hit_a)])
+            nprec = z3.Sum([z3.If(i_, 1, 0) for i_ in in_a])
+            trig = z3.Sum([z3.If(z3.And(i_, h), 1, 0) for i_, h in zip(in_b, hit_b)])
+            ntrig = z3.Sum([z3.If(i_, 1, 0) for i_ in in_b])
+            return prec, nprec, trig, ntrig
+        p12, n12_, t12, m12 = rates(ex_, ey_)
+        p21, n21_, t21, m21 = rates(ey_, ex_)
+        return [(p12, n12_), (t12, m12), (p21, n21_), (t21, m21)]
+
+    def harness(ex):
+        out = []
+        with pe.patched(mods()):
+            for (px, py) in pairs:
+                try:
+                    a = EventSeries.event_coincidence_analysis(px, py, tau, ts1=t, ts2=t, lag=lag)
+                except ZeroDivisionError:
+                    continue            # every event lies in the excluded boundary region (rate undefined)
+                names = ("precursor XY", "trigger XY", "precursor YX", "trigger YX")
+                for k, (cnt, den) in enumerate(spec(px, py)):
+                    v = pe._num(a[k])
+                    if isinstance(v, sx.NF):
+                        out.append((f"{names[k]} rate is not the counting definition", and_(not_(v.nan), den > 0, ne(mul(v.val, z3.ToReal(den)), z3.ToReal(cnt)))))
+                    else:
+                        out.append((f"{names[k]} rate is not the counting definition", and_(den > 0, ne(mul(v, z3.ToReal(den)), z3.ToReal(cnt)))))
+        return [(l, b_) for l, b_ in out if b_ is not False]
+
+    def wit(m, lab):
+        return {"kind": "eca-def", "t": [sx.model_value(m, x.v) for x in t], "lag": sx.model_value(m, lag.v), "taumax": sx.model_value(m, tau.v),
+                "label": lab, "pairs": [[p.tolist(), q.tolist()] for p, q in pairs]}
+    return run_paths(name, hyps, harness, funcs, f"T={T} symbolic time stamps, {len(pairs)} pattern pairs, symbolic taumax>=0, lag>=0",
+                     "C16|event_coincidence_analysis|definition", wit, max_paths=4000)
+
+
 def ob_eca_rate(name, T, pairs, window_type):
     """_eca_coincidence_rate with symbolic lag: exchanging the two series exchanges the two rates (the lag keeps its role), the
     rates are time-shift invariant and lie in [0,1]"""
@@ -332,6 +388,8 @@ def obligations(tier):
     ecap = ecap[:16 if not th else 48]
     for ci in range(0, len(ecap), 4):
         obs.append((ob_eca_relations, dict(name=f"C16|event_coincidence_analysis|relations|#{ci // 4}", T=4, pairs=ecap[ci:ci + 4]), 2400))
+    for ci in range(0, min(len(ecap), 8 if not th else 24), 2):
+        obs.append((ob_eca_definition, dict(name=f"C16|event_coincidence_analysis|definition|#{ci // 2}", T=4, pairs=ecap[ci:ci + 2]), 2400))
     big = [(a, b) for a in patterns(5, 4) for b in patterns(5, 4) if a.sum() >= 3 and b.sum() >= 3]
     rnd.shuffle(big)
     big = big[:6 if not th else 18]
@@ -353,6 +411,35 @@ def replay(w):
     f = core.to_float
     k = w["kind"]
     lab = w.get("label", "")
+    if k == "eca-def":
+        t = np.array(f(w["t"]), dtype=float)
+        lag, tau = float(f(w["lag"])), float(f(w["taumax"]))
+        msgs = []
+        for px, py in w["pairs"]:
+            px, py = np.array(px), np.array(py)
+            ex_, ey_ = t[px == 1], t[py == 1]
+            inst = (tau == 0 and lag == 0)
+
+            def rates(ea, eb):
+                hit_a = [any(0 <= a - b - lag <= tau for b in eb) for a in ea]
+                hit_b = [any(0 <= a - b - lag <= tau for a in ea) for b in eb]
+                in_a = [inst or a > ea[0] + lag + tau for a in ea]
+                in_b = [inst or b < eb[-1] - lag - tau for b in eb]
+                pa = sum(1 for i_, h in zip(in_a, hit_a) if i_ and h)
+                pb = sum(1 for i_, h in zip(in_b, hit_b) if i_ and h)
+                return (pa / sum(in_a) if sum(in_a) else None), (pb / sum(in_b) if sum(in_b) else None)
+            p12, t12 = rates(ex_, ey_)
+            p21, t21 = rates(ey_, ex_)
+            ref = [p12, t12, p21, t21]
+            try:
+                with np.errstate(all="ignore"):
+                    got = EventSeries.event_coincidence_analysis(px, py, tau, ts1=t, ts2=t, lag=lag)
+            except ZeroDivisionError:
+                continue
+            for k_, (g, r) in enumerate(zip(got, ref)):
+                if r is not None and np.isfinite(g) and not np.isclose(float(g), r, rtol=1e-6):
+                    msgs.append(f"ECA({px.tolist()},{py.tolist()}) at t={t.tolist()}, taumax={tau}, lag={lag}: output {k_} = {float(g)} but the counting definition gives {r}")
+        return bool(msgs), "; ".join(msgs[:3])
     if k in ("es", "eca"):
         t = np.array(f(w["t"]), dtype=float)
         lag, shift = float(f(w["lag"])), float(f(w["shift"]))
